@@ -104,6 +104,31 @@ Proof.
   rewrite (run_stream4_noBL q _ (v0prog_noBL _ Hv)).
   destruct (sim0_fwd q _ Hv _ _ _ _ (hand_sim0 q o sr HH) Hb) as [sr' [Hrun _]]. rewrite Hrun. exact Hok.
 Qed.
+(* a decoder that raises by itself raises the same error on the bytes and on the stream *)
+Theorem bytes_fail m q a h o e : MemoOK m ->
+  run_plain rd_header {| pbuf := q; poff := 0 |} = Ok (h, {| pbuf := q; poff := o |}) ->
+  fails_at (read_body legacy h a) {| pbuf := q; poff := o |} e ->
+  fst (read_bytes legacy m q a) = Err e.
+Proof. intros Hm Hh Hf. rewrite (bytes_header m q a h o Hm Hh), (fails_at_run _ _ _ Hf). reflexivity. Qed.
+Theorem stream4_fail_noAdv m q a h o e : MemoOK m -> any_arg a = true ->
+  run_plain rd_header {| pbuf := q; poff := 0 |} = Ok (h, {| pbuf := q; poff := o |}) ->
+  noAdv (read_body legacy h a) ->
+  fails_at (read_body legacy h a) {| pbuf := q; poff := o |} e ->
+  fst (fst (read_stream4 legacy m q a)) = Err e.
+Proof.
+  intros Hm Ha Hh Hv Hf. destruct (stream4_header m q a h o Hm Ha Hh) as [sr [HH ->]].
+  rewrite (sim4_fail q _ Hv _ _ _ (hand_sim q o sr HH) Hf). reflexivity.
+Qed.
+Theorem stream4_fail_v0 m q a h o e : MemoOK m -> any_arg a = true ->
+  run_plain rd_header {| pbuf := q; poff := 0 |} = Ok (h, {| pbuf := q; poff := o |}) ->
+  v0prog (read_body legacy h a) ->
+  fails_at (read_body legacy h a) {| pbuf := q; poff := o |} e ->
+  fst (fst (read_stream4 legacy m q a)) = Err e.
+Proof.
+  intros Hm Ha Hh Hv Hf. destruct (stream4_header m q a h o Hm Ha Hh) as [sr [HH ->]].
+  rewrite (run_stream4_noBL q _ (v0prog_noBL _ Hv)).
+  rewrite (sim0_fail q _ Hv _ _ _ (hand_sim0 q o sr HH) Hf). reflexivity.
+Qed.
 (* without window arguments the stream is read whole and decoded as bytes *)
 Theorem read_stream4_noargs m file a : any_arg a = false ->
   fst (read_stream4 legacy m file a) = read_bytes legacy m file a.
